@@ -483,6 +483,10 @@ def check_wave_leaves(chk, solver, name, inline=(), has_dxdt=True, rules=None):
                     got.append(("head", d))
                 elif iz(b - tail)[0]:
                     got.append(("tail", d))
+                elif has_star and iz((b - tail).xreplace({ustar: uK + s * fb_premise(side, "fan"), PKinv: 1 / PK}))[0]:
+                    # the same speed written through the Riemann invariant of the wave (a* = aK -+ (gamma-1)/2 (uK - u*)):
+                    # equal to the tail for every (u*, P*) that satisfies the star relation of this rarefaction
+                    got.append(("tail", d))
                 else:
                     # vacuum generation: the front of the *other* rarefaction is used to pick the side;
                     # under the function's precondition (fronts separated) it is implied by the tail bound
